@@ -108,6 +108,10 @@ func act(ctx *restli.RequestContext) (bool, error) {
 		return false, sc.errObj
 	case "error":
 		return false, errPlain
+	case "wrapped":
+		st := int32(418)
+		inner := "inner teapot"
+		return false, fmt.Errorf("%s: %w", errPlain.Error(), &common.ErrorResponse{Status: &st, Message: &inner})
 	case "panic":
 		panic("resource panicked: \"boom\"")
 	}
@@ -121,12 +125,16 @@ func segs(name string) []restli.ResourcePathSegment {
 	return []restli.ResourcePathSegment{restli.NewResourcePathSegment(name, true)}
 }
 
+func batchErrors() map[string]*common.ErrorResponse {
+	st, st3 := int32(404), int32(410)
+	msg, msg3 := "no such key", "gone for good"
+	return map[string]*common.ErrorResponse{"k,2": {Status: &st, Message: &msg}, "k3": {Status: &st3, Message: &msg3}}
+}
+
 func batchResult() bresp {
-	st := int32(404)
-	msg := "no such key"
 	return &common.BatchResponse[string, *common.BatchEntityUpdateResponse]{
 		Results: map[string]*common.BatchEntityUpdateResponse{"k1": {Status: 204}},
-		Errors:  map[string]*common.ErrorResponse{"k,2": {Status: &st, Message: &msg}},
+		Errors:  batchErrors(),
 	}
 }
 
@@ -158,10 +166,7 @@ func newServer() http.Handler {
 		if isNil || err != nil {
 			return nil, err
 		}
-		st := int32(404)
-		msg := "no such key"
-		return &common.BatchResponse[string, *entT]{Results: map[string]*entT{"k1": {X: 1}},
-			Errors: map[string]*common.ErrorResponse{"k,2": {Status: &st, Message: &msg}}}, nil
+		return &common.BatchResponse[string, *entT]{Results: map[string]*entT{"k1": {X: 1}}, Errors: batchErrors()}, nil
 	})
 	restli.RegisterCreate(s, segs("create"), nil, func(ctx *restli.RequestContext, rp *rpT, v *entT, qp *qpT) (*common.CreatedEntity[string], error) {
 		isNil, err := act(ctx)
@@ -231,7 +236,7 @@ func newServer() http.Handler {
 func call(c *restli.Client, adapter string) (err error, batchErrs map[string]string) {
 	ctx := context.Background()
 	rp := func(p string) restli.ResourcePath { return restli.ResourcePathString(p) }
-	keys := []string{"k1", "k,2"}
+	keys := []string{"k1", "k,2", "k3"}
 	be := func(m map[string]*common.ErrorResponse) map[string]string {
 		out := map[string]string{}
 		for k, e := range m {
@@ -268,7 +273,7 @@ func call(c *restli.Client, adapter string) (err error, batchErrs map[string]str
 		err = restli.DoActionRequest(c, ctx, rp("/actions"), restli.QueryParamsString("action=action_noresult"), &entT{X: 1})
 	case "batch_update":
 		var r bresp
-		r, err = restli.BatchUpdate(c, ctx, rp("/batch_update"), map[string]*entT{"k1": {X: 1}, "k,2": {X: 2}}, nil, nil)
+		r, err = restli.BatchUpdate(c, ctx, rp("/batch_update"), map[string]*entT{"k1": {X: 1}, "k,2": {X: 2}, "k3": {X: 3}}, nil, nil)
 		if err == nil {
 			batchErrs = be(r.Errors)
 		}
@@ -449,7 +454,7 @@ func main() {
 						violation("C08/error-response-field-added/"+k, fmt.Sprintf("client received field %s = %q the resource never set", k, clientFields[k]), cs)
 					}
 				}
-			case "error":
+			case "error", "wrapped":
 				if !strings.Contains(clientFields["message"], errPlain.Error()) { // verbatim, including its percent signs
 					violation("C08/error-message-lost", fmt.Sprintf("client error message %q does not carry the error's message", clientFields["message"]), cs)
 				}
@@ -460,9 +465,9 @@ func main() {
 			}
 		}
 		if row.Outcome == "value" && batchErrs != nil {
-			want := "map[message:no such key status:404]"
-			if len(batchErrs) != 1 || batchErrs["k,2"] != want {
-				violation("C08/batch-error-key", fmt.Sprintf("per-key errors arrived as %v, expected {\"k,2\": %s}", batchErrs, want), cs)
+			want := map[string]string{"k,2": "map[message:no such key status:404]", "k3": "map[message:gone for good status:410]"}
+			if len(batchErrs) != len(want) || batchErrs["k,2"] != want["k,2"] || batchErrs["k3"] != want["k3"] {
+				violation("C08/batch-error-key", fmt.Sprintf("per-key errors arrived as %v, expected %v", batchErrs, want), cs)
 			}
 		}
 	}
